@@ -62,6 +62,8 @@ pub enum Backoff {
     SubMs,
     /// 2.75 ms x 1.5^k: fractional milliseconds
     Fractional,
+    /// 1.25 s x 2^k: whole seconds plus a sub-second part
+    Seconds,
 }
 
 impl Backoff {
@@ -72,6 +74,7 @@ impl Backoff {
         let a = (k - 1) as u32;
         match self {
             Backoff::SubMs => 1,
+            Backoff::Seconds => 1250 * 2u64.pow(a),
             Backoff::Fractional => (2.75f64 * 1.5f64.powi(a as i32) - 1e-9).ceil() as u64,
             Backoff::Zero => 0,
             Backoff::Fixed => 10,
@@ -136,6 +139,7 @@ pub fn build(cfg: &Cfg, shared: trv_core::inner::Shared) -> (Svc, Option<Arc<Rec
         Backoff::Capped => b.backoff(ExponentialBackoff::new(Duration::from_millis(10)).max_interval(Duration::from_millis(25))),
         Backoff::Fn => b.backoff(FnInterval::new(|a: usize| Duration::from_millis((a as u64 + 1) * 7))),
         Backoff::SubMs => b.fixed_backoff(Duration::from_micros(900)),
+        Backoff::Seconds => b.exponential_backoff(Duration::from_millis(1250)),
         Backoff::Fractional => b.backoff(ExponentialBackoff::new(Duration::from_micros(2750)).multiplier(1.5)),
     };
     if cfg.predicate {
@@ -219,7 +223,7 @@ pub fn grid(tier: Tier) -> Vec<Cfg> {
     let mut v = vec![];
     for max_attempts in 0..=tier.pick(3usize, 4) {
         for per_request in [false, true] {
-            for backoff in [Backoff::Zero, Backoff::Fixed, Backoff::Exponential, Backoff::Capped, Backoff::Fn, Backoff::SubMs, Backoff::Fractional] {
+            for backoff in [Backoff::Zero, Backoff::Fixed, Backoff::Exponential, Backoff::Capped, Backoff::Fn, Backoff::SubMs, Backoff::Fractional, Backoff::Seconds] {
                 for predicate in [false, true] {
                     for budget in [BudgetKind::None, BudgetKind::Token(0), BudgetKind::Token(1), BudgetKind::Token(2), BudgetKind::Aimd, BudgetKind::AimdCost3] {
                         v.push(Cfg { max_attempts, per_request, backoff, predicate, budget });
